@@ -91,22 +91,48 @@ CLAIMED = {
         text="Lean 4 theorems: coo_adjoint (for ANY entry list over a commutative star-ring, <E x, y> = <x, adjE E y>: removes the "
              "quantifier over x, y); applyF_append/compE/conjE; adj_denote by structural induction over the Expr type mirroring "
              "Compose/Add/Conj/Hstack/Vstack/Diag and every _adjoint_linop; and the leaf pairs discharged IN LEAN for all valid "
-             "(symbolic) parameters of Identity, Reshape, Slice, Embed, Flip, Circshift (any shifts/axes incl. repeated, negative, "
-             "None), Downsample/Upsample, Resize (N-d, differing ranks, default or explicit shifts, equal-shape early return), "
-             "Sum/Tile, Transpose (None or any permutation incl. negative entries, argsort inverse), Multiply (scalar or broadcast "
-             "array, conj flag, the Reshape*Sum*Multiply(conj) plumbing with _get_multiply_adjoint_sum_axes), "
-             "ArrayToBlocks/BlocksToArray (1-3 D, any batch, overlap/gap/tiling) and Interpolate/Gridding with spline kernels "
-             "(1-3 D) - the last two about the translator-generated loop nests (scatter list = permutation of the swapped gather "
-             "list; gridding = literally the index-swapped interpolate list); hence adj_denote_leaves: for every tree over those 17 "
-             "leaf classes <A x, y> = <x, A.H y> and swapped shapes hold with NO hypothesis, and normal_gram_leaves "
-             "(<A.N x, z> = <A x, A z>). Tie: translator (Gen.Block, Gen.Interp, formulas) + exact comparison of the implementation's "
-             "matrices of A and A.H (basis vectors + Gaussian-integer vector) with the model's entries for 19 leaf classes and "
-             "random trees.",
-        note="Trusted: Lean kernel; translator; hand-transcribed leaf models (Transpose, Sum/Tile, Slice/Embed, Multiply/MatMul "
-             "plumbing) tied by the exact correspondence; MatMul/RightMatMul leaf pairs are validated by the exact matrix "
-             "correspondence only (no Lean proof); FFT, NUFFT, convolution, wavelet, Kaiser-Bessel leaves and the MRI factories "
-             "(Sense, ConvSense, ConvImage, PtxSpatialExplicit) are decided by the dot-test search oracle here (their own properties "
-             "C05/C06/C08/C10/C16 carry theorems); IEEE rounding not modelled.",
+             "(symbolic) parameters of ALL 19 exactly representable classes: Identity, Reshape, Slice, Embed, Flip, Circshift (any "
+             "shifts/axes incl. repeated, negative, None), Downsample/Upsample, Resize (N-d, differing ranks, default or explicit "
+             "shifts, equal-shape early return), Sum/Tile, Transpose (None or any permutation incl. negative entries, argsort "
+             "inverse), Multiply (scalar or broadcast array, conj flag, the Reshape*Sum*Multiply(conj) plumbing with "
+             "_get_multiply_adjoint_sum_axes), MatMul and RightMatMul (matmul_leaf_adjoint / rmatmul_leaf_adjoint: any matrix "
+             "shape [..,m,n], leading batch axes on either side with different ranks, broadcasting of singleton batch axes, "
+             "adjoint flag, conj-transpose, and the adjoint exactly as built: Reshape * Sum(_get_matmul_adjoint_sum_axes) * "
+             "(Right)MatMul(oshape, mat, not adjoint); method: both entry lists as 4-deep loop nests, the adjoint nest is the forward "
+             "nest with two loops interchanged and entries conjugate-transposed), ArrayToBlocks/BlocksToArray (1-3 D, any batch, "
+             "overlap/gap/tiling) and Interpolate/Gridding with spline kernels (1-3 D) - the last two about the translator-generated "
+             "loop nests; IMPORTED leaf classes through the new `ext` leaf (a class's entries + the entries of the class its "
+             "generated _adjoint_linop returns): ConvolveData / ConvolveDataAdjoint / ConvolveFilter / ConvolveFilterAdjoint in the "
+             "1-D single-channel case from C08's conv1_entries / data_adj_entries / filt_adj_entries (conv_leaf_proved), FFT / IFFT "
+             "over C in N dimensions, any axes, centred or not, from C05's ifft_table_eq_conjTranspose (fft_leaf_proved), Wavelet / InverseWavelet in 1-D over scalars with trivial "
+             "conjugation, any length / level / even filter pair, from C10's iwt1_is_adjoint (wave_leaf_proved_partial); "
+             "FiniteDifference: the Expr tree is GENERATED from the factory's source and consists of proved leaves only "
+             "(finiteDifference_leaves); hence adj_denote_leaves: for every tree over those classes <A x, y> = <x, A.H y> and swapped "
+             "shapes hold with NO hypothesis, and normal_gram_leaves (<A.N x, z> = <A x, A z>). The adjoint rules themselves are "
+             "translated from linop.py on every run (Gen.LinopAdjoint: every _adjoint_linop of the 19 classes incl. Transpose's "
+             "if/else and the R*S*M plumbing, the two sum-axes helpers, Conj/Add/Compose/Hstack/Vstack/Diag, the opaque pairs "
+             "FFT<->IFFT, Wavelet<->InverseWavelet, Convolve*<->*Adjoint, NUFFT<->NUFFTAdjoint) and proved equal to the model's adj "
+             "(adjLeaf_eq_gen, adj_eq_gen, multiplySumAxes_gen, matmulSumAxes_gen, adjOpaque_table), so adj_denote_gen states the "
+             "tree theorem about the generated definitions; the `_apply` side of seventeen classes (Identity, Reshape, Transpose, "
+             "Resize, Flip, Circshift, Downsample, Upsample, Sum, Slice, Embed, ArrayToBlocks, BlocksToArray, Interpolate, Gridding, "
+             "MatMul, RightMatMul incl. operand order and conj().swapaxes under `adjoint`) is translated too (applyGen: "
+             "which numpy / util / block / interp primitive with which attributes in which argument positions, bound through the "
+             "callee's signature read from util.py) and proved to be what the model's leafSem0 denotes (leafSem0_eq_prim). Tie: translator (Gen.Block, Gen.Interp, formulas, Gen.LinopAdjoint) + "
+             "exact comparison of the implementation's matrices of A and A.H (basis vectors + Gaussian-integer vector) with the "
+             "model's entries for 19 leaf classes, random trees, the generated FiniteDifference tree and the imported convolution "
+             "leaves (both entry lists of the ext leaf vs the real operator and its .H).",
+        note="Trusted: Lean kernel; translator (gen_c01: per-class map attribute -> constructor parameter read from __init__; the "
+             "normalised attributes Sum.axes / Tile.axes / Transpose.axes are pinned by source text); the semantics of the "
+             "numpy / util primitives (transpose, sum, slicing, flip, roll, resize, ...) are the model's hand-written contracts "
+             "tied by the exact correspondence; the `_apply` bodies of Tile and Multiply "
+             "(derived attributes / scalar-array branches) are hand transcriptions tied by the exact "
+             "correspondence, not regenerated; FFT leaves rest on C05's "
+             "table (tied to fourier.py by C05's check, irrational entries are not run through the C01 driver); oracle-only "
+             "(dot test, pairing pinned by adjOpaque_table): Wavelet/InverseWavelet in N-d / several axes or over complex scalars (only the 1-D "
+             "real case is bridged from C10; the filter bank of a wavelet name is a parameter of the leaf), multi-channel / N-D / batched convolutions (C08 has data_adjoint_mc / _2d; only "
+             "the 1-D single-channel entry lists are bridged), NUFFT/NUFFTAdjoint and Kaiser-Bessel Interpolate/Gridding "
+             "(irrational weights; C06/C07), ToDevice/AllReduce (no arithmetic), the MRI factories (C16); IEEE rounding not "
+             "modelled.",
         technique="Lean 4 proof (entry-list adjoint, leaf pairs, structural induction over operator trees) + exact differential correspondence",
         design="DESIGN.md §3 C01, §9"),
     "C04": dict(
@@ -125,7 +151,7 @@ CLAIMED = {
              "Tie: exact comparison of the implementation's A.N matrix with the model's normal e for all leaf classes and random "
              "trees; real A.H(A(1)) and A.N(1) of ArrayToBlocks in 1-3 D vs the per-axis cover counts printed by the Lean driver "
              "(C04.coverAxis); FFT/IFFT shortcut is C05's dftMatrix_unitary.",
-        note="Trusted: as C01 (MatMul / RightMatMul leaf pairing validated only, so trees containing them are outside "
+        note="Trusted: as C01 (MatMul / RightMatMul and the imported conv / FFT leaves are inside C01.LeafProved, hence covered by "
              "normal_denote_leaves). Side conditions of the shortcut theorems: non-negative extents. b2a_normal_identity_iff is proved "
              "for the 1-D loop nests (2-D / 3-D: cover level per axis + search oracle). Toeplitz NUFFT normal is "
              "decided by the search oracle only (relative l2 error <= 6% at defaults, 0.6% at oversamp 2 = twice the C06 bound).",
